@@ -3,9 +3,10 @@
 Deductive part (real code): MeshRegion.DDX -- centred x-differences at the four
 locations, across inner/outer joins and one-sided at grid boundaries, with every divisor
 a defined dx entry (the 'definedness' obligation that exposed F7); geometry2's dphidy
-(proved in C02, referenced); the zShift integrand Bt/(R|Bp|) (C02).  The integral itself
-(cumulative_trapezoid / interp1d on a FineContour), its hand-over between regions and
-ShiftAngle are checked on generated grids (continuity, chain total, half-cell position,
+(proved in C02, referenced); the zShift integrand Bt/(R|Bp|) (C02).  calcZShift on a two-region chain (open and periodic) with cumulative_trapezoid / interp1d
+replaced by their assumed contracts: zero at the chain start, the four location maps, hand-over
+(continuity at the join), ShiftAngle from the LAST region of a periodic chain.
+The accuracy of the integral is also checked on generated grids (continuity, chain total, half-cell position,
 2*pi*q on the circular equilibrium): bounded.
 """
 import types
@@ -91,6 +92,10 @@ def build(S):
         for i in (False, True):
             for o in (False, True):
                 S.contract("DDX[inner=%s,outer=%s]" % (i, o), FN_DDX, make_ddx_run(i, o), shape="nx=2, ny=1")
+        from . import chainkit
+
+        for per in (False, True):
+            S.contract("calcZShift[two-region chain,periodic=%s]" % per, FN_ZS, chainkit.run_zshift(per), shape="two regions, nx=1, ny=1", assume_safety="R>0 and Bp!=0 at the fine-contour nodes (geometry preconditions)")
         S.contract("dx defined at all four locations", "hypnotoad.core.mesh:MeshRegion.geometry1", run_dx_defined, expected_exceptions=(ValueError,), raises_ok=g1_raises_ok, shape="nx=1, ny=3")
 
 
